@@ -143,8 +143,9 @@ def vm_record(rec, cap):
         image['cut'] = bool(tracer.cut or res.timed_out)
         image['fault'] = res.machine_fault or ''
         from harness import c06
-        if image['fault'] and c06.HALT.search(image['fault']) and len(tracer.rows) > 1:
-            # the script's own values made an instruction fail (a division by zero): the run ends there, as documented;
+        if image['fault'] and (c06.HALT.search(image['fault']) or c06.TYPEERR.search(image['fault'])) and len(tracer.rows) > 1:
+            # the script's own values made an instruction fail (a division by zero, arithmetic on the time pattern that
+            # `time` holds after a `time at`): the run ends there, as documented;
             # the steps up to it are judged, the unfinished instruction is not a step
             image['trace'] = tracer.rows[:-1]
             image['cut'] = True
